@@ -156,7 +156,9 @@ CLAIMED.update({
          'the id is unique among the lexicons that can declare it and the entry has a form), and is listed among that word\'s / '
          'synset\'s senses; Word.senses/Synset.senses list exactly the sense rows in scope; composite navigation is the composition '
          'of single steps; equality keys are rowids (ILI+lexicon for placeholders); translate returns nothing without an ILI and '
-         'otherwise exactly the target-lexicon synsets sharing the ILI; all steps keep the Wordnet.',
+         'otherwise exactly the target-lexicon synsets sharing the ILI (sound and complete: an iff on rowids), hence symmetrically: '
+         'two synsets sharing an ILI translate to each other under selections containing the other\'s lexicon; all steps keep '
+         'the Wordnet.',
          CORE_TRUST, 'DESIGN.md section 5 C10, Appendix E'),
  'C11': ('Coq proof over the Gallina model of relation queries, closure and relation_paths (wn/_core.py, wn/_queries.py) plus a '
          'refinement proof that the Python agenda loops (stack for relation_paths, queue for closure) compute the recursive '
